@@ -15,6 +15,8 @@ void simalloc_fail_at(uint64_t k);
 /* additionally fail each call with probability permille/1000, decided by its own PRNG */
 void simalloc_fail_random(unsigned permille, uint64_t seed);
 void simalloc_fail_off(void);
+/* audit code: allocations made while paused are neither counted nor failed (nestable) */
+void simalloc_pause(int on);
 uint64_t simalloc_calls(void); /* allocation calls so far in this run */
 uint64_t simalloc_failures(void); /* injected failures so far */
 uint64_t simalloc_live_blocks(void);
